@@ -53,6 +53,9 @@ type hpType struct {
 	elN      int
 	shape    string // driver line
 	vals     []int  // indices of fields that are neither key nor flag
+	// probed on the implementation (not the model): a filter-less remote write to an existing store does not
+	// take the replace fast path but goes through the engine (the tree has the C04a repair)
+	remoteFullViaEngine bool
 }
 
 func hpScalar(k reflect.Kind) bool {
@@ -655,6 +658,10 @@ func (t *hpType) matches(sel []int, a []int) bool {
 
 func (w *hpWrite) isFull() bool { return w.fpk == "N" && w.fdk == "N" && w.persist }
 
+// viaEngine: does the call run through model.UpdateList (attribution only; the SPEC's reading of a
+// filter-less persisting write stays "replace")
+func (t *hpType) viaEngine(w *hpWrite) bool { return !w.isFull() || (w.remote && t.remoteFullViaEngine) }
+
 // partialPart: "", "selector", "noop" (partial filter with elements only), "idless", "merge"
 func (t *hpType) partialPart(w *hpWrite) string {
 	if w.fpk == "F" {
@@ -772,7 +779,7 @@ func (t *hpType) explain(w *hpWrite, old, new [][]int) []string {
 			switch {
 			case new[i][j] < 0 && named[j]:
 				set["RemoveElementFromItem"] = true
-			case !w.isFull() && (part == "selector" || part == "idless") && len(w.items) > 0 && j < len(w.items[0]) && w.items[0][j] == new[i][j]:
+			case t.viaEngine(w) && (part == "selector" || part == "idless") && len(w.items) > 0 && j < len(w.items[0]) && w.items[0][j] == new[i][j]:
 				set[hpPartialFn(part)] = true
 			default:
 				set["?"] = true
@@ -821,7 +828,7 @@ func (t *hpType) c04(rep specSink, ops []string, w *hpWrite, before, after [][]i
 			}
 			if !found {
 				key := "C04/unwritable-modified:" + shape
-				if w.isFull() {
+				if !t.viaEngine(w) {
 					key = "C04/fastpath-full-remote-write"
 				}
 				rep.SpecFail(key, ops, fmt.Sprintf("%s: element %s (flag not true) is gone or changed after a remote write; before=%s after=%s", t.fn, hpItemS(e), hpListS(before), hpListS(after)))
@@ -846,7 +853,7 @@ func (t *hpType) c04(rep specSink, ops []string, w *hpWrite, before, after [][]i
 				if t.keyOf(e) == k && e[t.flag] != a[t.flag] {
 					key := "C04/flag-altered:" + shape
 					switch {
-					case w.isFull():
+					case !t.viaEngine(w):
 						key = "C04/fastpath-full-remote-write"
 					case a[t.flag] < 0 && t.namedEl(w)[t.flag] && w.deletePart() != "" && w.deletePart() != "del-sel":
 						key = "C04/flag-altered:deleteFilteredData"
@@ -926,7 +933,15 @@ func (t *hpType) notApplied(w *hpWrite, before, after [][]int) string {
 			rekeyed[t.keyOf(u)] = true
 		}
 	}
-	switch w.deletePart() {
+	// if the partial part of the same write sets a field the delete selector looks at, which elements
+	// "matched" is not decidable from before / after alone: the delete part is not judged
+	delPart := w.deletePart()
+	for j, x := range w.fds {
+		if x >= 0 && j < len(t.selMap) && t.selMap[j] >= 0 && overl[t.selMap[j]] {
+			delPart = ""
+		}
+	}
+	switch delPart {
 	case "del-sel":
 		for _, a := range after {
 			if t.matches(w.fds, a) && !rekeyed[t.keyOf(a)] {
@@ -944,13 +959,6 @@ func (t *hpType) notApplied(w *hpWrite, before, after [][]int) string {
 		}
 	case "del-el", "del-sel-el":
 		named := t.namedEl(w)
-		// if the partial part of the same write sets a field the delete selector looks at, which elements
-		// "matched" is not decidable from before / after alone: not judged
-		for j, x := range w.fds {
-			if x >= 0 && j < len(t.selMap) && t.selMap[j] >= 0 && overl[t.selMap[j]] {
-				named = nil
-			}
-		}
 		for _, a := range after {
 			if w.fds != nil && !t.matches(w.fds, a) {
 				continue
@@ -1005,6 +1013,12 @@ func (t *hpType) notApplied(w *hpWrite, before, after [][]int) string {
 	case "selector":
 		if len(w.items) == 0 {
 			return ""
+		}
+		// delete elements that clear a field the partial selector looks at change what it matches: not judged
+		for j, x := range w.fps {
+			if x >= 0 && j < len(t.selMap) && t.selMap[j] >= 0 && t.namedEl(w)[t.selMap[j]] {
+				return ""
+			}
 		}
 		// elements that matched before the partial phase (after the delete phase) - by identifier
 		var m [][]int
